@@ -128,7 +128,7 @@ theorem okEq_field (O : Oracles) (opts : DeserOpts) : ∀ (f : FieldDecl) (d : P
       have hpt : ∀ x ∈ xs, OkEq (deserThen O opts f x) (liftThen O opts f x) := fun x hx =>
         okEq_field O opts f x hex.2 (strictJsonList_mem xs hj' x hx)
       have := seq_assemble k sz (fun _ => true) (mapE (deser O opts false f)) (mapE (validate O f))
-        (mapO (lift O opts f)) hu (mapE_length _) (mapO_length _) xs (list_equiv O opts f xs hpt)
+        (mapO (lift O opts f)) hu (mapE_length _) (mapO_length _) xs (lf_list_equiv O opts f xs hpt)
       simp only [deserThen, liftThen, deser, lift, validate, listDoc, PyVal.isNone, Bool.false_and,
         Bool.false_eq_true, if_false, Option.bind_some]
       exact this
@@ -163,7 +163,7 @@ theorem okEq_field (O : Oracles) (opts : DeserOpts) : ∀ (f : FieldDecl) (d : P
       have hpt : ∀ x ∈ xs, OkEq (deserThen O opts f x) (liftThen O opts f x) := fun x hx =>
         okEq_field O opts f x hex.2 (strictJsonList_mem xs hj' x hx)
       have := tuple_assemble u (fun _ => true) (mapE (deser O opts false f)) (mapE (validate O f))
-        (mapO (lift O opts f)) hu (mapE_length _) (mapO_length _) xs (list_equiv O opts f xs hpt)
+        (mapO (lift O opts f)) hu (mapE_length _) (mapO_length _) xs (lf_list_equiv O opts f xs hpt)
       simp only [deserThen, liftThen, deser, lift, validate, listDoc, PyVal.isNone, Bool.false_and,
         Bool.false_eq_true, if_false, Option.bind_some]
       exact this
